@@ -123,6 +123,10 @@ func c02One(env *Env, m *wvlib.Model, c *C02Case) {
 		old, nw = clashPair(wvlib.NewRng(c.Seed), c.Clash)
 	} else {
 		old, nw = c.gen()
+		if c.Opts.KindClash {
+			// one or two paths change kind between the builds, at random
+			c.Rel = append(c.Rel, wvlib.AddKindClashes(wvlib.NewRng(c.Seed^0xc1a5), old, nw)...)
+		}
 	}
 	base, od, nd, clean := writePair(env.Scratch, old, nw)
 	defer clean()
@@ -143,6 +147,15 @@ func c02One(env *Env, m *wvlib.Model, c *C02Case) {
 	suffix := ""
 	if c.Clash != "" {
 		suffix = ":" + c.Clash
+	} else if c.Opts.KindClash {
+		// theorem C02.commit_correct_kinds_partial: the commit is correct whenever BenignKindChanges holds; outside
+		// it (the recorded finding F8) a failure is classified by the clause that is violated
+		if clause := c02NotBenign(res.Old, res.New, patch); clause != "" {
+			suffix = ":not-benign:" + clause
+			env.R.Count("kind-changes:not-benign:"+clause, 1)
+		} else {
+			env.R.Count("kind-changes:benign", 1)
+		}
 	}
 	reps := c.Repeats
 	if reps < 1 {
@@ -262,6 +275,11 @@ func runC02(env *Env) {
 	for i := 0; i < n; i++ {
 		cases = append(cases, &C02Case{PairCase: PairCase{Seed: rng.Next(), Opts: wvlib.PairOpts{MaxFiles: 6, Symlinks: true, SmallOnly: i%4 != 0}}, Optimized: i%5 == 3, Repeats: reps})
 	}
+	// pairs in which one or two paths change kind at random: correct whenever BenignKindChanges holds
+	nk := n / 2
+	for i := 0; i < nk; i++ {
+		cases = append(cases, &C02Case{PairCase: PairCase{Seed: rng.Next(), Opts: wvlib.PairOpts{MaxFiles: 5, Symlinks: true, SmallOnly: true, KindClash: true}}, Optimized: i%5 == 3, Repeats: reps})
+	}
 	models := startModels(env)
 	wvlib.ParallelDo(len(cases), env.Workers, func(i int) {
 		m := <-models
@@ -272,4 +290,58 @@ func runC02(env *Env) {
 		}
 	})
 	stopModels(env, models)
+}
+
+// c02NotBenign evaluates the predicate BenignKindChanges of Props/C02Kinds.lean on a pair of containers and the
+// transpositions the patch leads to; returns "" when it holds, else the name of a violated clause.  (dirOrder holds
+// for every container tlc.Walk produces: parents are listed first.)
+func c02NotBenign(oldC, newC *tlc.Container, patch []byte) string {
+	newFiles, newDirs := map[string]bool{}, map[string]bool{}
+	for _, f := range newC.Files {
+		newFiles[f.Path] = true
+	}
+	for _, d := range newC.Dirs {
+		newDirs[d.Path] = true
+	}
+	var oldPaths []string
+	for _, f := range oldC.Files {
+		oldPaths = append(oldPaths, f.Path)
+	}
+	for _, l := range oldC.Symlinks {
+		oldPaths = append(oldPaths, l.Path)
+	}
+	for _, d := range oldC.Dirs {
+		oldPaths = append(oldPaths, d.Path)
+	}
+	// emptyDir: an old directory that is a file of the new build has nothing below it in the old build
+	for _, d := range oldC.Dirs {
+		if newFiles[d.Path] {
+			for _, q := range oldPaths {
+				if strings.HasPrefix(q, d.Path+"/") {
+					return "emptyDir"
+				}
+			}
+		}
+	}
+	// sources: the old path of a transposed file is not a directory of the new build.  A series is a transposition
+	// when its first op is a block range from block 0 of an equally sized old file spanning all of its blocks
+	// (isFullFileOp)
+	_, _, msgs, err := decodePatch(patch)
+	if err != nil {
+		return ""
+	}
+	for k, m := range msgs {
+		if m.Kind != "H" || k+1 >= len(msgs) {
+			continue
+		}
+		op := msgs[k+1]
+		if op.Kind != "O" || op.A != 0 || op.C != 0 || m.B < 0 || int(m.B) >= len(newC.Files) || op.B < 0 || int(op.B) >= len(oldC.Files) {
+			continue
+		}
+		of, nf := oldC.Files[op.B], newC.Files[m.B]
+		if of.Size == nf.Size && op.D == (nf.Size+int64(wvlib.BS)-1)/int64(wvlib.BS) && newDirs[of.Path] {
+			return "sources"
+		}
+	}
+	return ""
 }
